@@ -20,7 +20,9 @@ MustDeliver(s) == s.o \in {"inorder", "reverse", "dup-first", "swap-tail"}      
 \* IPHC header scenarios (wire level: emit into a dirty buffer, parse with the same link-layer context, compare).  The
 \* interface cannot resolve neighbours with short link addresses, so the forms that depend on them are reached here.
 SrcClasses == {"unspec", "ll-from-ext", "ll-from-short", "ll-short-other", "ll-iid64", "global"}
-DstClasses == (SrcClasses \ {"unspec"}) \cup {"mc-8", "mc-32", "mc-48", "mc-full"}
+\* "mc-8f" / "mc-32f": link-local-scope groups with a small group id but non-zero flags or a scope the short forms cannot
+\* express (ff12::42, ff32::1:2:3 is not needed: one per short form): they must NOT be squeezed into the 8- / 32-bit forms
+DstClasses == (SrcClasses \ {"unspec"}) \cup {"mc-8", "mc-32", "mc-48", "mc-full", "mc-8f", "mc-32f"}
 LlKinds == {"ext", "short", "none"}
 NextHdrs == {"compressed", "udp", "tcp", "icmp6", "hbh"}
 IphcScenarios == [s : SrcClasses, d : DstClasses, ls : LlKinds, ld : LlKinds, h : Hops \cup {0, 2, 63, 254}, nh : NextHdrs]
